@@ -261,9 +261,11 @@ func (d *driver) handle(p Pat, via string, start *xml.StartElement, typ, id stri
 	return nil
 }
 
-func (d *driver) options() []mux.Option {
+func (d *driver) options() []mux.Option { return d.optionsFor(d.c.Pats) }
+
+func (d *driver) optionsFor(pats []Pat) []mux.Option {
 	var opts []mux.Option
-	for _, p := range d.c.Pats {
+	for _, p := range pats {
 		p := p
 		n := xml.Name{Space: p.Space, Local: p.Local}
 		switch p.Kind {
@@ -475,12 +477,13 @@ func errClass(err error, panicv string) string {
 }
 
 type judge struct {
-	c     *core.Case
-	cs    *Case
-	ref   *refMux
-	mode  string // direct | served
-	pats  map[string]Pat
-	count bool
+	c      *core.Case
+	cs     *Case
+	ref    *refMux
+	mode   string // direct | served
+	pats   map[string]Pat
+	count  bool
+	staged bool
 }
 
 // judgeElement compares the record of element i with the reference and
@@ -559,6 +562,12 @@ func (j *judge) judgeElement(e *El, full []xml.Token, rec *elemRec, written []st
 		}
 		if x.Shape == "empty" && len(x.Invoke) == 1 && kind != "iq" {
 			c.Count("empty_stanza_to_wildcard", 1)
+		}
+		if kind == "iq" && e.NoType {
+			c.Count("iq_without_type_attribute", 1)
+			if len(x.Invoke) > 0 {
+				c.Count("empty_type_pattern_invoked_for_untyped_iq", 1)
+			}
 		}
 		if kind == "top" && isStanzaLocal(e.Local) {
 			c.Count("stanza_taken_by_toplevel_namespace_pattern", 1)
@@ -660,6 +669,15 @@ func (j *judge) judgeElement(e *El, full []xml.Token, rec *elemRec, written []st
 		wantReply := x.Fallback
 		if j.mode == "served" && sessionAnswers(e) {
 			wantReply = true // the session answers for handlers that did not
+		}
+		if x.FallbackOptional && len(gotIQ) > 0 {
+			// an IQ without a type attribute that nothing handles: the fallback
+			// answers it (it is neither a result nor an error), the statement
+			// promises a reply to get and set only; either is accepted
+			wantReply = true
+			if j.count {
+				c.Count("untyped_iq_answered_by_fallback", 1)
+			}
 		}
 		switch {
 		case wantReply && len(gotIQ) == 0:
@@ -957,9 +975,15 @@ func runDirectForm(c *core.Case, cs *Case, form string) {
 	mode := "direct"
 	if form == "memory" {
 		mode = "direct-memory-reader"
-		d.pairEOF = true
 	}
 	j := &judge{c: c, cs: cs, ref: newRef(cs), mode: mode, pats: cs.patsByTag(), count: form == "decoder"}
+	feed(c, cs, d, j, form, text, fulls)
+}
+
+// feed hands every element of cs to d (once) and judges it with j.
+func feed(c *core.Case, cs *Case, d *driver, j *judge, form, text string, fulls [][]xml.Token) {
+	mode := j.mode
+	d.pairEOF = form == "memory"
 	dec := xml.NewDecoder(strings.NewReader(text))
 	dec.Token() // header
 	var out bytes.Buffer
@@ -992,7 +1016,9 @@ func runDirectForm(c *core.Case, cs *Case, form string) {
 		}{rd, enc}
 		out.Reset()
 		c.Guard("ServeMux.HandleXMPP", func() { d.HandleXMPP(rw, &start) })
-		if form == "memory" {
+		if j.staged {
+			c.Count("staged_elements", 1)
+		} else if form == "memory" {
 			c.Count("direct_memory_reader_elements", 1)
 			if mr.pairs > 0 {
 				c.Count("memory_reader_last_token_delivered_with_eof", 1)
@@ -1019,11 +1045,79 @@ func runDirectForm(c *core.Case, cs *Case, form string) {
 				break
 			}
 		}
-		if form == "decoder" {
+		if form == "decoder" && !j.staged {
 			sig(c, cs, j.ref, i)
 		}
 	}
 	j.judgeStray(d)
+}
+
+// runStaged registers the patterns in two steps on one multiplexer value:
+// the multiplexer is built with the first part and dispatches every element,
+// then the options of the second part are applied to the same *ServeMux (an
+// Option is an exported func(*ServeMux)) and every element is dispatched
+// again.  The reference is recomputed from what is registered at each step.
+func runStaged(c *core.Case, cs *Case) {
+	if len(cs.Pats) < 2 {
+		return
+	}
+	text := cs.streamText()
+	fulls, err := parseSent(text)
+	if err != nil || len(fulls) != len(cs.Els) {
+		return
+	}
+	var first, second []Pat
+	for k, p := range cs.Pats {
+		if cs.StageMask>>(uint(k)%60)&1 == 1 {
+			second = append(second, p)
+		} else {
+			first = append(first, p)
+		}
+	}
+	if len(second) == 0 {
+		return
+	}
+	one := *cs
+	one.Pats = first
+	d := newDriver(c, &one)
+	if d.mux == nil {
+		return
+	}
+	form := "decoder"
+	if cs.StageMask&(1<<61) != 0 {
+		form = "memory"
+	}
+	j1 := &judge{c: c, cs: &one, ref: newRef(&one), mode: "staged-1", pats: cs.patsByTag(), staged: true}
+	feed(c, &one, d, j1, form, text, fulls)
+
+	if c.Guard("Option applied to an existing ServeMux", func() {
+		for _, o := range d.optionsFor(second) {
+			o(d.mux)
+		}
+	}) {
+		return
+	}
+	d.mu.Lock()
+	for i := range d.recs {
+		d.recs[i] = &elemRec{}
+	}
+	d.stray = nil
+	d.c = cs
+	d.mu.Unlock()
+	j2 := &judge{c: c, cs: cs, ref: newRef(cs), mode: "staged-2", pats: cs.patsByTag(), staged: true}
+	feed(c, cs, d, j2, form, text, fulls)
+	c.Count("staged_registration_scenarios", 1)
+	for _, e := range cs.all() {
+		a, b := j1.ref.expect(e), j2.ref.expect(e)
+		if fmt.Sprint(expTags(a.Invoke), a.Fallback) != fmt.Sprint(expTags(b.Invoke), b.Fallback) {
+			c.Count("staged_elements_routed_differently_after_later_registration", 1)
+			for k := range b.Invoke {
+				if k < len(a.Invoke) && a.Invoke[k].Tag != b.Invoke[k].Tag && a.Invoke[k].Child == b.Invoke[k].Child {
+					c.Count("staged_more_specific_pattern_registered_later", 1)
+				}
+			}
+		}
+	}
 }
 
 // runConcurrent dispatches the elements on one shared multiplexer from one
@@ -1392,6 +1486,10 @@ func genReg(c *core.Case) Reg {
 		o := Pat{Kind: g.Kind, Type: g.Type, Space: g.Space, Local: g.Local}
 		switch r.Intn(4) {
 		case 0: // same name, other type
+			if (g.Kind == "iq" || g.Kind == "message") && g.Type != "" && r.Intn(3) == 0 {
+				o.Type = "" // the zero value of the type next to an explicit one
+				break
+			}
 			if g.Kind != "top" {
 				ts := kindTypes[g.Kind]
 				for o.Type == g.Type {
@@ -1446,12 +1544,18 @@ func runCase(c *core.Case, cs *Case, reg *Reg) {
 		s.Sent = append(s.Sent, e.Raw(cs.StreamNS))
 	}
 	c.Sample(s)
+	if cs.EmptyTypePatterns {
+		c.Count("cases_with_empty_type_patterns_next_to_explicit_ones", 1)
+	}
 	runDirect(c, cs)
 	if cs.Served {
 		runServed(c, cs)
 	}
 	if cs.Concurrent {
 		runConcurrent(c, cs)
+	}
+	if cs.StageMask != 0 {
+		runStaged(c, cs)
 	}
 	if reg != nil {
 		runRegistration(c, *reg)
@@ -1476,6 +1580,9 @@ func Prop() *core.Prop {
 		"served_sessions", "served_elements", "direct_elements",
 		"direct_memory_reader_elements", "memory_reader_last_token_delivered_with_eof", "reentrant_dispatches",
 		"concurrent_scenarios", "concurrent_dispatches", "concurrent_scenarios_with_overlapping_handlers",
+		"staged_registration_scenarios", "staged_elements", "staged_elements_routed_differently_after_later_registration",
+		"staged_more_specific_pattern_registered_later", "iq_without_type_attribute", "empty_type_pattern_invoked_for_untyped_iq",
+		"cases_with_empty_type_patterns_next_to_explicit_ones",
 		"stanza_taken_by_toplevel_namespace_pattern", "message_with_undefined_type_value", "message_with_undefined_type_value_handled_as_normal",
 		"elements_with_failing_handler", "handler_error_returned_by_mux", "handlers_invoked_after_failing_handler",
 		"handlers_invoked_after_failing_handler_that_read_part",
